@@ -282,9 +282,10 @@ def run_check(prop, tier, seed, n_workers=None):
                     n_new=len(new_by_key), known=list(known_hit),
                     harness=len(harness), det_checked=budget.get('det', 4),
                     det_bad=len(det_bad))
-  os.makedirs(os.path.join(HERE, 'evidence'), exist_ok=True)
-  with open(os.path.join(HERE, 'evidence', f'{prop}.json'), 'w') as f:
-    json.dump(ev, f, indent=1, sort_keys=True)
+  if not os.environ.get('VERIF_NO_EVIDENCE'):
+    os.makedirs(os.path.join(HERE, 'evidence'), exist_ok=True)
+    with open(os.path.join(HERE, 'evidence', f'{prop}.json'), 'w') as f:
+      json.dump(ev, f, indent=1, sort_keys=True)
   for l in lines:
     print(l)
   print(f"{prop} {tier} seed={seed}: runs={agg.n} ticks={agg.ticks} "
